@@ -250,6 +250,10 @@ fn main() {
                 Err(e) => eprintln!("cannot print: {e:#}"),
             }
         }
+        "c14-doc" => {
+            let src = std::fs::read_to_string(&args[2]).expect("file");
+            println!("{}", props::c14::debug_doc(src));
+        }
         "c14-dump" => {
             let (what, bytes) = props::c14::dump_point(args[2].parse().unwrap());
             eprintln!("{what}");
